@@ -1,5 +1,5 @@
 """C11 - URL parsing and joining are total: any text gives a result or a ValueError."""
-from harness.common import hit, uncache_url, clear_url_memo, pick
+from harness.common import hit, uncache_url, clear_url_memo, pick, nosym
 import wpull.url as U
 from wpull.url import URLInfo
 from vlib.spec import H
@@ -123,12 +123,42 @@ def _child_url_entry(bi, li, entry):
     return all(isinstance(u, str) for u in table.rows)
 
 
+# sizes are chosen so that even exponential behaviour (doubling per character) ends within seconds: an in-process check cannot
+# abort a call that never returns
+_COSTLY = ['http://' + '1234567890' * 2 + '123456.cdn.example.com/', 'http://' + '9' * 25 + 'x.example/', 'http://0x' + 'f' * 24 + 'g.example/',
+           'http://' + '1.' * 13 + 'x/', 'http://' + 'a' * 63 + '.' + 'b' * 63 + '.example/', 'http://h/' + '../' * 200 + 'x', 'http://h/?' + 'a=b&' * 300,
+           'http://' + '[' * 24 + ']' * 24 + '/', 'http://h/' + '%' * 500, 'http://' + '0' * 26 + '/', 'http://h:' + '9' * 26 + '/']
+
+
+def _parse_cost(i, logging_variant):
+    """Totality includes termination: inputs built to provoke super-linear work (long digit / hex runs before a non-numeric label,
+    long dot-segment and bracket runs ...) are decided quickly (wall-clock bound 3 s; they take microseconds)."""
+    import time
+    u = pick(_COSTLY, i)
+    with nosym():
+        t0 = time.perf_counter()
+        try:
+            if logging_variant:
+                U.parse_url_or_log(u)
+            else:
+                URLInfo.parse(u)
+        except ValueError:
+            pass
+        dt = time.perf_counter() - t0
+    hit('timed')
+    return dt < 3.0
+
+
 def _join_free(bi, link):
     r = urljoin_safe(_BASES[bi], link)
     return r is None or isinstance(r, str)
 
 
 HARNESSES = [
+    H('parse_cost', '_parse_cost', 'i: int, logging_variant: bool', pre=['0 <= i < %d' % len(_COSTLY)], timeout={'quick': 200, 'thorough': 300},
+      samples=[(0, False), (1, True)], need=['timed'], funcs=['wpull/url.py:URLInfo.parse', 'wpull/url.py:URLInfo.parse_hostname', 'wpull/url.py:normalize_ipv4_address'],
+      doc='11 inputs built to provoke super-linear work (24-26 digit or hex runs in front of a non-numeric label, 13 numeric labels, long '
+          'dot-segment, bracket, escape and query runs): parse and the logging variant return or refuse within 3 s of wall-clock time'),
     H('child_url_entry', '_child_url_entry', 'bi: int, li: int, entry: int', pre=['0 <= bi < %d and 0 <= li < %d and 0 <= entry <= 2' % (len(_BASES), len(_LINKS))],
       timeout={'quick': 200, 'thorough': 400}, samples=[(0, 0, 0), (0, 5, 1), (1, 1, 2)], need=['queued', 'dropped'],
       funcs=['wpull/pipeline/session.py:ItemSession.add_child_url', 'wpull/pipeline/session.py:ItemSession.add_url', 'wpull/url.py:parse_url_or_log'],
